@@ -32,7 +32,7 @@ def run(ctx):
     ok, thms, log = kernel.proof_step(ctx, regen=("specs",))
     rng = random.Random(ctx.seed)
     n = 700 if ctx.tier == "quick" else 8000
-    cases = I.directed_cases() + I.alias_collision_cases(ctx.repo_copy) + I.twin_cases(ctx.repo_copy) + I.exclusive_pair_cases(ctx.repo_copy) + I.short_array_cases(ctx.repo_copy) + I.enum_near_cases(ctx.repo_copy) + I.gen_cases(rng, n, ctx.repo_copy)
+    cases = I.root_cases(ctx.repo_copy) + I.directed_cases() + I.alias_collision_cases(ctx.repo_copy) + I.twin_cases(ctx.repo_copy) + I.exclusive_pair_cases(ctx.repo_copy) + I.short_array_cases(ctx.repo_copy) + I.enum_near_cases(ctx.repo_copy) + I.gen_cases(rng, n, ctx.repo_copy)
     if getattr(ctx, "replay_file", None):
         cases = [json.load(open(ctx.replay_file))["case"]]
     verdicts = I.run_verdicts(ctx.repo_copy, [c["doc"] for c in cases])
